@@ -181,7 +181,8 @@ def preprocess_tag_block_spacing(text: str) -> str:
     open_fence: str | None = None  # Fence of the code block we are inside, if any.
     for i, line in enumerate(lines):
         # Lines inside fenced code blocks are code, not tags or lists: leave them alone.
-        fence_match = re.match(r"^ {0,3}(`{3,}|~{3,})", line)
+        # (a backtick fence has no further backtick on its line: "```code``` text" is a code span)
+        fence_match = re.match(r"^ {0,3}(`{3,}(?=[^`]*$)|~{3,})", line)
         if open_fence is None:
             if fence_match:
                 open_fence = fence_match.group(1)
